@@ -121,6 +121,24 @@ impl PhysicalOperator for UnionExec {
         let chained = chained.map_ok(move |b| {
             if b.schema() != schema && b.num_columns() == schema.fields().len() {
                 arrow::record_batch::RecordBatch::try_new(schema.clone(), b.columns().to_vec())
+                    .or_else(|_| {
+                        // A column may travel in an internal representation
+                        // (dictionary-encoded join gathers) until the result
+                        // boundary: keep its type, but still give it the
+                        // union's column name.
+                        let fields: Vec<arrow::datatypes::Field> = schema
+                            .fields()
+                            .iter()
+                            .zip(b.columns())
+                            .map(|(f, c)| {
+                                arrow::datatypes::Field::new(f.name(), c.data_type().clone(), true)
+                            })
+                            .collect();
+                        arrow::record_batch::RecordBatch::try_new(
+                            std::sync::Arc::new(arrow::datatypes::Schema::new(fields)),
+                            b.columns().to_vec(),
+                        )
+                    })
                     .unwrap_or(b)
             } else {
                 b
